@@ -7,6 +7,7 @@ import PyTough.Proofs.T2DataFile
 import PyTough.Proofs.T2DataGener
 import PyTough.Proofs.T2DataParam
 import PyTough.Proofs.T2DataRocks
+import PyTough.Proofs.T2DataParamSection
 namespace Proofs.T2
 open Py Model Model.T2 Proofs Proofs.Incon
 open Gen.Sections (Rec)
@@ -139,6 +140,17 @@ theorem rock_shape (T : Tabs) (hT : T = mainTabs ∨ T = xpTabs) :
     exact ⟨by decide +kernel, by decide +kernel, h12.1, by decide +kernel,
       ⟨by decide +kernel, ⟨by decide +kernel, by decide +kernel, by decide +kernel⟩, by decide +kernel,
        recWFb_spec (by decide +kernel), h12.2, by decide +kernel⟩⟩
+
+/-- the record kinds of PARAM in the current main table, for either flavour -/
+theorem param_recs (d : T2Data) :
+    param1Rec mainTabs d = .ok (recOf mainTabs (if d.autough2 then c!"param1_autough2" else c!"param1")) ∧
+    RecWF (recOf mainTabs (if d.autough2 then c!"param1_autough2" else c!"param1")) ∧
+    mainTabs.get c!"param2" = .ok (recOf mainTabs c!"param2") ∧ RecWF (recOf mainTabs c!"param2") ∧
+    mainTabs.get c!"param3" = .ok (recOf mainTabs c!"param3") ∧ RecWF (recOf mainTabs c!"param3") := by
+  unfold param1Rec
+  cases d.autough2 <;>
+    exact ⟨by decide +kernel, recWFb_spec (by decide +kernel), by decide +kernel, recWFb_spec (by decide +kernel),
+           by decide +kernel, recWFb_spec (by decide +kernel)⟩
 
 /-! ### keyword → reader / writer dispatch as it is in /repo -/
 
